@@ -736,6 +736,58 @@ Lemma sibling_count_witness :
   map c_restarts (f_children (sibling_count_run true)) = [3; 3].
 Proof. vm_compute. repeat split; reflexivity. Qed.
 
+(* ------------------------------------------------------------------ escalation chains *)
+
+(* a failure that is not escalated by the child's supervisor does not reach the level above *)
+Lemma chain_not_escalated keep cfgP cfgC eP t f :
+  c_status (parent_of t) = Running ->
+  directive_of (cfgC (fl_child f)) (fl_ety f) <> Some DEscalate ->
+  t_top (chain_fail keep cfgP cfgC eP t f) = t_top t /\
+  t_sub (chain_fail keep cfgP cfgC eP t f) = supervise keep cfgC (t_sub t) f.
+Proof.
+  intros Hp Hd. unfold chain_fail. rewrite Hp.
+  assert (He : f_escal (supervise keep cfgC (t_sub t) f) = f_escal (t_sub t)).
+  { unfold supervise. destruct (negb (is_running _ _)); [reflexivity|].
+    destruct (directive_of (cfgC (fl_child f)) (fl_ety f)) as [[| | |]|]; try reflexivity; try congruence.
+    destruct (budget_exhausted _ _); reflexivity. }
+  rewrite He, Nat.eqb_refl. split; reflexivity.
+Qed.
+
+Lemma top_escalate keep cfgP eP top now :
+  f_children top = [fresh_child] -> directive_of cfgP eP = Some DEscalate ->
+  supervise keep (fun _ => cfgP) top (mkFail 0 eP now) =
+  mkFam [suspend_child fresh_child] (f_escal top ++ [(0%nat, eP)]).
+Proof.
+  intros Htop HdP. destruct top as [cs es]. cbn in Htop. subst cs.
+  unfold supervise. cbn [fl_child fl_ety f_children f_escal is_running nth_error c_status fresh_child status_eqb negb].
+  rewrite HdP. reflexivity.
+Qed.
+
+(* a chain of two Escalate directives hands the failure to the handler two levels up, with the
+   error the middle actor failed with; both failing actors wait suspended *)
+Lemma chain_escalated_twice keep cfgP cfgC eP t f c :
+  f_children (t_top t) = [fresh_child] ->
+  child_at (t_sub t) (fl_child f) = Some c -> c_status c = Running ->
+  directive_of (cfgC (fl_child f)) (fl_ety f) = Some DEscalate ->
+  directive_of cfgP eP = Some DEscalate ->
+  let t' := chain_fail keep cfgP cfgC eP t f in
+  f_escal (t_top t') = f_escal (t_top t) ++ [(0%nat, eP)] /\
+  f_escal (t_sub t') = f_escal (t_sub t) ++ [(fl_child f, fl_ety f)] /\
+  c_status (parent_of t') = Suspended /\
+  child_at (t_sub t') (fl_child f) = Some (suspend_child c).
+Proof.
+  intros Htop Hc Hs Hd HdP.
+  destruct (supervise_escalate keep cfgC (t_sub t) f c Hc Hs Hd) as [E1 [E2 _]].
+  unfold chain_fail, parent_of. rewrite Htop. cbn [nth c_status fresh_child].
+  rewrite E1, app_length. cbn [length].
+  replace (Nat.eqb (length (f_escal (t_sub t)) + 1) (length (f_escal (t_sub t)))) with false
+    by (symmetry; apply Nat.eqb_neq; lia).
+  rewrite (top_escalate keep cfgP eP (t_top t) (fl_now f) Htop HdP).
+  cbn [f_children nth suspend_child c_status c_gen fresh_child t_top t_sub f_escal].
+  change (1 =? 1) with true. cbn iota.
+  repeat split; auto.
+Qed.
+
 (* ------------------------------------------------------------------ non-vacuity *)
 
 Example ex_config :
